@@ -568,6 +568,137 @@ func runHammer(ts []string) string {
 	return "ok"
 }
 
+// runSweep: `sweep call|tick <keys> <writers> <rounds>` — the real CleanupExpired (called in a
+// loop, or driven by StartCleanup's ticker) against concurrent re-writes of many expired keys.
+// Round: write <keys> keys with a 2 ms lifetime, wait 6 ms (all expired), release the writers and
+// the sweeper by one flag; writer w re-writes the keys i ≡ w with Set / SetNX / CAS(nil) / IncrBy /
+// SetHash / AppendToList; afterwards every key is read back. No Delete is ever issued, so per key
+// the history `set, sleep, re-write, reads` is sequential and the sweep must be invisible in it.
+// Observation: `keys <n> lost <c> hist <per-key history> obs <its answers>` for the first key whose
+// read came back "nf" (or key 0 of the last round when none did); `holds` runs the reference on it.
+func runSweep(ts []string) string {
+	if len(ts) != 4 {
+		return "bad-case"
+	}
+	mode := ts[0]
+	nkeys, _ := strconv.Atoi(ts[1])
+	writers, _ := strconv.Atoi(ts[2])
+	rounds, _ := strconv.Atoi(ts[3])
+	if nkeys <= 0 || writers <= 0 || rounds <= 0 || (mode != "call" && mode != "tick") {
+		return "bad-case"
+	}
+	x, y := sTok("x"), sTok("y")
+	long := strconv.Itoa(longNS)
+	rewrite := func(k string, kind int) []item {
+		var line string
+		switch kind % 6 {
+		case 0:
+			line = "set " + k + " " + y + " 0 get " + k + " ttl " + k
+		case 1:
+			line = "nx " + k + " " + y + " " + long + " get " + k + " ttl " + k
+		case 2:
+			line = "cas " + k + " nil " + y + " 0 get " + k + " ttl " + k
+		case 3:
+			line = "incr " + k + " 7 get " + k + " ttl " + k
+		case 4:
+			line = "hset " + k + " f " + y + " hget " + k + " f ex " + k
+		default:
+			line = "app " + k + " " + y + " getl " + k + " ex " + k
+		}
+		its, _ := parseItems(strings.Fields(line))
+		return its
+	}
+	histOf := func(k string, its []item) string {
+		p := []string{"set", k, x, "2000000", "sl", "6000000"}
+		for _, it := range its {
+			p = append(p, it.op)
+			p = append(p, it.args...)
+		}
+		return strings.Join(p, " ")
+	}
+	totalLost := 0
+	report := ""
+	for r := 0; r < rounds; r++ {
+		st := memory.New(context.Background())
+		keys := make([]string, nkeys)
+		for i := range keys {
+			keys[i] = "k" + strconv.Itoa(i)
+			st.Set(keys[i], "x", 2*time.Millisecond)
+		}
+		time.Sleep(6 * time.Millisecond)
+		var start, writersDone int32
+		var wg, sw sync.WaitGroup
+		wres := make([]string, nkeys)
+		for w := 0; w < writers; w++ {
+			wg.Add(1)
+			go func(w int) {
+				defer wg.Done()
+				for atomic.LoadInt32(&start) == 0 {
+				}
+				for i := w; i < nkeys; i += writers {
+					wres[i] = doCall(st, rewrite(keys[i], i)[0])
+				}
+			}(w)
+		}
+		if mode == "call" {
+			sw.Add(1)
+			go func() {
+				defer sw.Done()
+				for atomic.LoadInt32(&start) == 0 {
+				}
+				for atomic.LoadInt32(&writersDone) == 0 {
+					st.CleanupExpired()
+				}
+			}()
+		}
+		time.Sleep(50 * time.Microsecond)
+		atomic.StoreInt32(&start, 1)
+		if mode == "tick" {
+			// the ticker starts with the writers so that its first scans fall into the re-write phase
+			st.StartCleanup(time.Duration(40+20*(r%8)) * time.Microsecond)
+		}
+		wg.Wait()
+		atomic.StoreInt32(&writersDone, 1)
+		sw.Wait()
+		if mode == "tick" {
+			time.Sleep(500 * time.Microsecond)
+			st.StopCleanup()
+		}
+		st.CleanupExpired()
+		for i := 0; i < nkeys; i++ {
+			its := rewrite(keys[i], i)
+			obs := []string{"ok", wres[i]}
+			lost := false
+			for _, it := range its[1:] {
+				o := doCall(st, it)
+				obs = append(obs, o)
+				if o == "nf" || o == "F" {
+					lost = true
+				}
+			}
+			if lost {
+				totalLost++
+			}
+			if (lost && totalLost == 1) || (report == "" && r == rounds-1 && i == nkeys-1) {
+				j := i
+				if !lost {
+					j, its = 0, rewrite(keys[0], 0)
+					obs = []string{"ok", wres[0]}
+					for _, it := range its[1:] {
+						obs = append(obs, doCall(st, it))
+					}
+				}
+				report = "hist " + histOf(keys[j], its) + " obs " + strings.Join(obs, " ")
+			}
+		}
+		st.Close()
+		if totalLost > 0 {
+			break
+		}
+	}
+	return "keys " + strconv.Itoa(nkeys) + " lost " + strconv.Itoa(totalLost) + " " + report
+}
+
 // ---------------------------------------------------------------- dispatcher
 
 type result struct {
@@ -620,6 +751,8 @@ func execLine(line string, rounds int) []string {
 		return runConc(progs, rounds)
 	case "hammer":
 		return []string{runHammer(ts[1:])}
+	case "sweep":
+		return []string{runSweep(ts[1:])}
 	}
 	return []string{"bad-case"}
 }
@@ -677,7 +810,7 @@ func modeOf(line string) string {
 		return "mem"
 	case "red":
 		return "red"
-	case "sched", "conc", "hammer":
+	case "sched", "conc", "hammer", "sweep":
 		return "conc"
 	}
 	return ""
